@@ -52,6 +52,7 @@ var (
 	rtForward = []byte{0x60, 0x00, 0x60, 0x00, 0x60, 0x00, 0x60, 0x00, 0x34, 0x60, 0x00, 0x35, 0x5a, 0xf1, 0x00} // call(gas, calldata[0], callvalue)
 	rtLog     = []byte{0x60, 0x00, 0x60, 0x00, 0xa0, 0x00}                                                       // log0
 	rtLoop    = []byte{0x5b, 0x60, 0x00, 0x56}                                                                   // jumpdest push0 jump
+	rtSuicide = []byte{0x33, 0xff} // selfdestruct(caller)
 	// keeps what it is sent; called without value it pays its whole balance to the caller
 	rtPayout = []byte{0x34, 0x60, 0x11, 0x57, 0x60, 0x00, 0x60, 0x00, 0x60, 0x00, 0x60, 0x00, 0x30, 0x31, 0x33, 0x5a, 0xf1, 0x5b, 0x00}
 )
@@ -266,6 +267,21 @@ func (o *OLVM) Plan(c *Ctx) []hist.TxSpec {
 	case 39:
 		// ... and the deployment follows (with an endowment)
 		out = append(out, o.create(c, es[0], "prefunded", rtStore, big.NewInt(11)))
+	case 42:
+		out = append(out, o.create(c, es[0], "suicide", rtSuicide, big.NewInt(0)))
+	case 43:
+		// the contract's address is paid natively: its balance record is written by a block of its own ...
+		if a, ok := o.contracts["suicide"]; ok {
+			u := c.W.Users[0]
+			out = append(out, Build(c, "SEND", txb.Send(u.Addr, keys.Address(a.Bytes()), "OLT", "777"), "native transfer to the address of a contract that can destroy itself", u))
+		}
+	case 44:
+		// ... and a later call makes it destroy itself in favour of the caller
+		if a, ok := o.contracts["suicide"]; ok {
+			sp := o.tx(c, es[1], &a, big.NewInt(0), nil, 60000, "call that makes the natively funded contract destroy itself in favour of the caller")
+			sp.Meta["payout"] = keys.Address(a.Bytes()).String()
+			out = append(out, sp)
+		}
 	case 40, 41:
 		// a call that ends in REVERT having used only part of its gas, without and with a value
 		if a, ok := o.contracts["revert"]; ok {
